@@ -139,6 +139,23 @@ def gen(rng, tier, focus):
                 lines.append(enc_args(a))
             stmts.append((qid, ds, opts, mode, txt, argsets, m))
         lines.append("SQLCLOSE " + h)
+    # data source names whose option strings exercise Open's parsing (Dsn.v): repeated keys
+    # (the first value counts), keys without value, empty pairs, other spellings of true, cache
+    # sizes at and beyond 2^64-1, signs, exponents, leading zeros
+    hostile = ["preload=false&preload=true", "preload=true&preload=false", "&&preload=true&", "preload", "preload=TRUE",
+               "lrucache=true&lrucachesize=18446744073709551615", "lrucache=true&lrucachesize=18446744073709551616",
+               "lrucache=true&lrucachesize=007", "lrucache=true&lrucachesize=-5", "lrucache=true&lrucachesize=1e3", "lrucache=true&lrucachesize=",
+               "x=1&lrucache=true&lrucachesize=12&lrucachesize=abc", "lrucachesize=5", "lrucache=TRUE&lrucachesize=abc",
+               "lrucachesize=abc&lrucache=true&preload=true", "lrucache=true&lrucachesize=99999999999999999999", "lrucache=true&lrucachesize=0x10", "=true&preload=true"]
+    for oi, opts in enumerate(hostile):
+        h = "qc_h%d" % oi
+        lines.append("SQLOPEN %s qc %s" % (h, opts))
+        for qn, (txt, t, gb) in enumerate(fixed[:2]):
+            qid = "%s.s%d" % (h, qn)
+            lines.append("SQLQ %s %s %s %s 1" % (qid, h, ["direct", "prepared"][(qn + oi) % 2], core.enc_str(txt)))
+            lines.append(enc_args([]))
+            stmts.append((qid, ds, opts, ["direct", "prepared"][(qn + oi) % 2], txt, [[]], 0))
+        lines.append("SQLCLOSE " + h)
     return lines, stmts
 
 
